@@ -13,16 +13,18 @@ from vf.rigs.env import Env
 from vf.runner import Ob
 
 LEVEL = "other"
-TECHNIQUE = ('CrossHair (z3) on the real path normalisation with a symbolic table location + symx over solver-chosen operation histories on real backends for each location spelling')
+TECHNIQUE = ('CrossHair (z3) on the real path normalisation with a symbolic table location + symx over solver-chosen operation histories on real backends for each location spelling + symbolic injection point of a collection inside a live transaction')
 EXPLANATION = (
     "CrossHair/z3 over the real path normalisation with a symbolic table location (<= 6 chars) and file name; "
     "symx/z3 exploration of all operation histories up to the length bound (operation kinds, targets, grace "
     "period, idle time are solver choices) on the real local / S3 backends for every location spelling, with the "
-    "reachability oracle evaluated after every collection; decision tree exhausted per obligation.")
+    "reachability oracle evaluated after every collection; plus a complete collection injected atomically before every "
+    "storage call (symbolic index) of a live transaction; decision tree exhausted per obligation.")
 RULE = ("E1: one case = one z3 query; E2: one case = one explored history (path); non-trivial = the solver chose at least one "
         "operation kind / target on it")
 ASSUMPTIONS = [
     "histories up to the stated length; grace period in {0, 1 h, 30 d}; idle time before a collection in {5 ms, 2 h}; <= 2 open transactions",
+    "collections injected into a live transaction run atomically between two of its storage calls (interleaved runs are C06's subject)",
     "location strings in part (a) up to 6 characters, file names up to 3; part (b) uses the concrete spelling list of the property",
     "FakeOS (symlinks, relative paths via a cwd) / FakeS3 semantics; mtime = virtual time of the last write",
 ]
